@@ -289,6 +289,11 @@ class SimProcess:
                     return int.from_bytes(hashlib.sha256(hkey.encode() + b"\0" + data).digest()[:8], "little", signed=True)
                 return real_hash(obj)
             builtins.hash = seeded_hash
+        self._saved_cwd = (os.getcwd, os.getcwdb)
+        cwd = self.knobs.get("cwd")
+        if cwd:
+            os.getcwd = lambda: cwd
+            os.getcwdb = lambda: cwd.encode()
         self._saved_env = None
         env = self.knobs.get("environ")
         if env:
@@ -301,6 +306,7 @@ class SimProcess:
         builtins.hash = self._saved_hash
         self._clock.uninstall()
         random._urandom, os.urandom, time.time, time.time_ns, os.getpid = self._saved_fns
+        os.getcwd, os.getcwdb = self._saved_cwd
         if self._saved_env:
             for k, v in self._saved_env.items():
                 if v is None:
